@@ -7,7 +7,7 @@ import mpmath as mp
 import numpy as np
 from hypothesis import strategies as st
 
-from ..core import Facet, HarnessError, Violation
+from ..core import Facet, HarnessError, Violation, attributed
 from ..gen import logfloat as _logfloat
 from ..ref import kin
 
@@ -618,7 +618,9 @@ def run_graphs(da):
     from scippneutron.conversion.graph import beamline as G
 
     def tc(name, graph):
-        return da.transform_coords(name, graph=graph, rename_dims=False).coords[name]
+        with attributed(f"transform_coords({name!r}) over graph.beamline.{name.split('_noscatter')[0]}() on data with coords "
+                        f"{sorted(da.coords)}"):
+            return da.transform_coords(name, graph=graph, rename_dims=False).coords[name]
 
     return {
         "incident_beam": tc("incident_beam", G.incident_beam()),
